@@ -16,7 +16,7 @@ THOROUGH = QUICK + [(1, 4, 3), (2, 4, 2), (2, 3, 3), (3, 3, 3), (3, 4, 2), (4, 3
 def describe(tier):
     cfg = QUICK if tier == "quick" else THOROUGH
     return {
-        "rule": "empty-entry family: 1..3 dimensions (2 rows) where one dimension additionally carries an explicitly empty entry - nothing may be presented for it; long family: N=18(24) rows, one dimension holding a contiguous run of 8..10(17) rows of one category and another with 1-2 sparse rows, both orders and a 3-dimension variant; populous family: 17..70(260) rows under every ordered pair (and four triples) of six row patterns (constant, r mod 2, r mod 3, a mixing pattern, halves, reversed r mod 3) so that every cell holds many rows, three choices of common values (every third case also with every stored row-id array as a non-contiguous view); MANY family: 1500-4000 (20000) rows over dimensions of 70 / 150 / 200 categories crossed with small ones, 1-3 dimensions; and for each (D dims, N rows, E categories) in %r: every data vector over {0..E-1} per dimension and every common value in 0..E per "
+        "rule": "empty-entry family: 1..3 dimensions (2 rows) where one dimension additionally carries an explicitly empty entry - nothing may be presented for it; long family: N=18(24) rows, one dimension holding a contiguous run of 8..10(17) rows of one category and another with 1-2 sparse rows, both orders and a 3-dimension variant; populous family: 17..70(260) rows under every ordered pair (and four triples) of six row patterns (constant, r mod 2, r mod 3, a mixing pattern, halves, reversed r mod 3) so that every cell holds many rows, three choices of common values (every third case also with every stored row-id array as a non-contiguous view); a callback that calls interactions() on the same cube while being called; HIGH family: 1-3 dimensions of 2^32 rows with entries at 0, 1, 7, 2^31-1, 2^31, 2^32-3 .. 2^32-1; MANY family: 1500-4000 (20000) rows over dimensions of 70 / 150 / 200 categories crossed with small ones, 1-3 dimensions; and for each (D dims, N rows, E categories) in %r: every data vector over {0..E-1} per dimension and every common value in 0..E per "
         "dimension (E = absent); the log of (coords, rows) delivered to interactions() and to two callbacks of walk([f, g]) must equal, as a multiset, "
         "{(c, rows(c)) : c in prod(uncommon_d u {-1}) minus all -1, rows(c) non-empty}; each row array strictly increasing uint32. "
         "Non-trivial: D >= 2 and at least one expected combination mixing a marginal and an uncommon coordinate. Distinct = distinct (data, commons)." % (cfg,),
@@ -81,6 +81,52 @@ def many_cases(tier):
     return out
 
 
+# row ids at the top of the uint32 range (an index only stores uncommon rows, so 2^32 rows cost nothing): arithmetic on row ids must not wrap
+HIGH_ROWS = [0, 1, 7, 2 ** 31 - 1, 2 ** 31, 2 ** 32 - 3, 2 ** 32 - 2, 2 ** 32 - 1]
+
+
+def check_high(acc):
+    from catii.ccubes import ccube
+    from catii.iindexes import iindex
+
+    N = 2 ** 32
+    picks = [HIGH_ROWS, HIGH_ROWS[3:], HIGH_ROWS[:2] + HIGH_ROWS[-2:], HIGH_ROWS[-1:], HIGH_ROWS[:-1]]
+    n = 0
+    for D in (1, 2, 3):
+        for combo in itertools.product(range(len(picks)), repeat=D):
+            # dimension d: category 1 on picks[combo[d]], category 2 on two fixed rows, everything else common (0)
+            ents = []
+            for d, pi in enumerate(combo):
+                rows1 = picks[pi]
+                rows2 = [r for r in (5, 2 ** 32 - 1 - d) if r not in rows1]
+                e = {(1,): numpy.array(rows1, dtype=numpy.uint32)}
+                if rows2:
+                    e[(2,)] = numpy.array(sorted(rows2), dtype=numpy.uint32)
+                ents.append(e)
+            case = {"high_rowids": True, "dims": [{str(k[0]): v.tolist() for k, v in e.items()} for e in ents]}
+            groups = {}
+            allrows = sorted(set(r for e in ents for v in e.values() for r in v.tolist()))
+            for r in allrows:
+                vals = [next((k[0] for k, v in e.items() if r in set(v.tolist())), 0) for e in ents]
+                free = [d for d in range(D) if vals[d] != 0]
+                for k in range(1, len(free) + 1):
+                    for sub in itertools.combinations(free, k):
+                        groups.setdefault(tuple(vals[d] if d in sub else -1 for d in range(D)), []).append(r)
+            exp = Counter((c, tuple(rs)) for c, rs in groups.items())
+            try:
+                dims = [iindex({k: v.copy() for k, v in e.items()}, 0, (N,)) for e in ents]
+                log = ccube(dims).interactions()
+            except Exception as e:  # noqa
+                acc.violation("walk:raised", case, repr(e))
+                continue
+            got = Counter((tuple(int(x) for x in c), tuple(numpy.asarray(r).tolist())) for c, r in log)
+            if got != exp:
+                acc.violation("walk:multiset", case, "missing %r; unexpected/duplicated %r" % (sorted((exp - got).elements())[:4], sorted((got - exp).elements())[:4]))
+            n += 1
+            acc.case(("high", combo), nontrivial=D >= 2, outcome=("high", D, len(exp)), sample=case)
+    return n
+
+
 def populous_cases(tier):
     names = sorted(POP_PATTERNS)
     out = []
@@ -98,6 +144,7 @@ def blocks(tier):
     out = [("long", {"tier": tier, "i": i}) for i in range(len(long_cases(tier)))]
     out += [("populous", {"tier": tier, "i": i}) for i in range(len(populous_cases(tier)))]
     out += [("many", {"tier": tier, "i": i}) for i in range(len(many_cases(tier)))]
+    out.append(("high", {}))
     out += [("emptyentry", {"D": D, "pos": pos}) for D in (1, 2, 3) for pos in range(D)]
     for D, N, E in cfg:
         n0 = len(dim_opts(N, E))
@@ -164,7 +211,25 @@ def check(datas, commons, acc, case, fast=False, layout=None):
     except Exception as e:  # noqa
         acc.violation("walk:raised", case, repr(e))
         return exp
-    for name, log in (("interactions", inter), ("walk[f,g].f", log1), ("walk[f,g].g", log2), ("walk(f)", log3)):
+    # a callback that uses the library on the SAME cube while it is being called (interactions() once, on its first invocation)
+    log4, inner = [], []
+    if len(exp) <= 200:
+        try:
+            rc = ccube(dims)
+
+            def reentrant(c, r):
+                if not inner:
+                    inner.append(rc.interactions())
+                log4.append((c, r))
+
+            rc.walk(reentrant)
+        except Exception as e:  # noqa
+            acc.violation("walk:raised", dict(case, via="re-entrant callback"), repr(e))
+            return exp
+    logs = [("interactions", inter), ("walk[f,g].f", log1), ("walk[f,g].g", log2), ("walk(f)", log3)]
+    if inner:
+        logs += [("walk(re-entrant f)", log4), ("interactions() inside a callback", inner[0])]
+    for name, log in logs:
         got = Counter()
         for coords, rows in log:
             rows = numpy.asarray(rows)
@@ -212,6 +277,9 @@ def run_block(family, p, acc):
             exp = check_with_empty_entry(datas, commons, pos, acc)
             acc.case(("empty", pos, tuple(datas), tuple(commons)), nontrivial=D >= 2, outcome=("empty", D, len(exp)), sample={"data": [list(t) for t in datas], "commons": commons, "empty_entry_in_dim": pos})
         return
+    if family == "high":
+        check_high(acc)
+        return
     if family == "many":
         N, pats = many_cases(p["tier"])[p["i"]]
         datas = [tuple(MANY_PATTERNS[n](r, N) for r in range(N)) for n in pats]
@@ -257,7 +325,10 @@ def replay(case, site=None):
     from ..core import Acc
 
     acc = Acc(ID, [], stop_at_first=False)
-    if case.get("many"):
+    if case.get("high_rowids"):
+        check_high(acc)
+        acc.violations[:] = [v for v in acc.violations if v["case"].get("dims") == case.get("dims")]
+    elif case.get("many"):
         N, pats = case["many"]
         datas = [tuple(MANY_PATTERNS[n](r, N) for r in range(N)) for n in pats]
         check(datas, case["commons"], acc, case, fast=True)
